@@ -1,3 +1,4 @@
+import Props.C13Facts
 import Props.C02
 open Model.C02
 #print axioms heads_spec
@@ -6,3 +7,9 @@ open Model.C02
 #print axioms heads_subset
 #print axioms heads_no_duplicates
 #print axioms sorted_heads_same
+open Model.C13 in
+#print axioms shape_append
+open Model.C13 in
+#print axioms shape_join
+open Model.C13 in
+#print axioms shape_readers
